@@ -32,7 +32,7 @@ func writeManifest() {
 			"engine":              "vcheck",
 			"level_claimed": map[string]interface{}{
 				"category":   "other",
-				"text":       lt + " Decided: " + p.Explanation + " Not decided: " + p.NotDecided,
+				"text":       lt + " Decided: " + p.Explanation + explanationAddenda[p.ID] + " Not decided: " + p.NotDecided,
 				"design_ref": p.DesignRef,
 			},
 			"level_note": "Trusted base: go/types, go/ssa and callgraph/vta from golang.org/x/tools v0.29.0; the frozen rule tables in /verif/cmd/vcheck; external libraries call back only through values handed to them; reflection/unsafe/cgo not modelled.",
